@@ -1132,6 +1132,11 @@ class Interp(object):
             return c.apply_at_call(self, vals, site)
         for h in self.call_hooks:
             h(self, fv, vals)
+        ex = getattr(self, 'executed', None)
+        if ex is not None:
+            k = '%s.%s' % (fv.module.name, fv.qualname)
+            if k not in ex:
+                ex[k] = self.source_hash(fv)
         env = Env(fv.closure, fv.module, fv)
         env.vars.update(vals)
         if fv.is_generator:
